@@ -91,9 +91,9 @@ schema(AP.GtkDocCommentBlock, name='str', params='ParamDict', description='str?'
 schema(transformer.Transformer, _namespace='Namespace', _accept_unprefixed='bool', _parsed_includes='dict[Namespace]',
        _tag_ns='dict[Compound]', _passthrough_mode='bool', _cachestore='CacheStore?',
        _identifier_filter_cmd='any', _symbol_filter_cmd='any', _pkg_config_packages='set')
-schema(maintransformer.MainTransformer, _transformer='Transformer', _blocks='dict[GtkDocCommentBlock]',
+schema(maintransformer.MainTransformer, _transformer='Transformer', _blocks='BlockDict',
        _namespace='Namespace', _uscore_type_names='dict[Node]')
-schema(introspectablepass.IntrospectablePass, _transformer='Transformer', _blocks='dict[GtkDocCommentBlock]',
+schema(introspectablepass.IntrospectablePass, _transformer='Transformer', _blocks='BlockDict',
        _namespace='Namespace')
 
 # ------------------------------------------------------------------------------------------------
@@ -104,6 +104,7 @@ _opts = parse_spec('list[str]')
 _dopts = TypeSpec('dict', (), False, parse_spec('str?'))
 named_spec('Annotations', TypeSpec('dict', (AP.GtkDocAnnotations,), False, _opts,
                                    keyed={AP.ANN_ARRAY: _dopts, AP.ANN_ATTRIBUTES: _dopts}, region='annotations'))
+named_spec('BlockDict', TypeSpec('dict', (), False, parse_spec('GtkDocCommentBlock'), region='blocks'))
 named_spec('TagDict', TypeSpec('dict', (collections.OrderedDict,), False, parse_spec('GtkDocTag'), region='block.tags'))
 named_spec('ParamDict', TypeSpec('dict', (collections.OrderedDict,), False, parse_spec('GtkDocParameter'), region='block.params'))
 schema(AP.GtkDocAnnotatable, position='Position?', annotations='Annotations')
